@@ -475,7 +475,11 @@ func (w *world) direct(query, opName string, vars, exts map[string]interface{}, 
 		resp = &graphql.Response{Errors: errs}
 	} else {
 		req.Document = doc
-		resp = w.executeHook(req, &info)
+		if w.flags.NoExec {
+			resp = graphql.Execute(req) // what NewAPI installs when Config.Execute is nil
+		} else {
+			resp = w.executeHook(req, &info)
+		}
 	}
 	body, err := jsoniter.Marshal(resp)
 	if err != nil {
